@@ -492,9 +492,10 @@ def checkArrayParms (isArray : Bool) (val : Val) : R Unit :=
 def ctorProperty (name ty : Str) (val : Val) (isArray : Bool) (asz : Option Int) (refCls origin : Option Str)
     (propagated : Option Bool) (embA : Option Str) (quals : List Qual) : R Prop_ := do
   checkArrayParms isArray val
+  -- `if embedded_object is not False:` since /repo ef0170b: an EMPTY attribute value is checked (and refused) too
   match embA with
-  | some (c :: cs) => checkEmbeddedObject (c :: cs) ty val
-  | _ => pure ()
+  | some e => checkEmbeddedObject e ty val
+  | none => pure ()
   if refCls.isSome ∧ isArray then .error .valueError
   else if !isCimType ty then .error .valueError
   else pure (.mk name ty val isArray (asz.map Int.toNat) refCls origin propagated embA (dictOfList Qual.name quals))
